@@ -202,6 +202,9 @@ Definition na_opts_ok (tmac : bytes) (o : option (list (N * bytes))) : bool :=
 Definition ndp_hop_ok (dip : bytes) (hop : N) : bool :=
   if ip6_is_linklocal dip then hop =? 255 else negb (hop =? 0).
 
+(* RFC 4861 (4.1-4.5, 6.1.x, 7.1.x): every Neighbor Discovery message has hop limit 255 *)
+Definition nd_hop_ok (hop : N) : bool := hop =? 255.
+
 (* Neighbor Solicitation (RFC 4861 4.3): type 135 code 0, 4 reserved bytes, target, options *)
 Definition wf_ns_gen (slla_type : N) (hostmac dmac sip dip target : bytes) (fr : bytes) : bool :=
   match ref_decode fr with
@@ -209,7 +212,7 @@ Definition wf_ns_gen (slla_type : N) (hostmac dmac sip dip target : bytes) (fr :
       (et =? 34525) && (nh =? 58) && (typ =? 135) && (code =? 0)
       && beq d dmac && beq s hostmac && beq a sip && beq b dip
       && Nat.leb 20 (List.length rest) && beq (sub rest 4 16) target
-      && ndp_hop_ok b hop
+      && nd_hop_ok hop
       && ns_opts_ok slla_type hostmac (ndp_opts (skipn 20 rest))
       && icmp6_cks_ok fr
   | _ => false
@@ -225,7 +228,7 @@ Definition wf_na (hostmac dmac sip dip : bytes) (flags : N) (tip tmac : bytes) (
       (et =? 34525) && (nh =? 58) && (typ =? 136) && (code =? 0)
       && beq d dmac && beq s hostmac && beq a sip && beq b dip
       && Nat.leb 20 (List.length rest) && (nth 0 rest 0 =? flags) && beq (sub rest 4 16) tip
-      && ndp_hop_ok b hop
+      && nd_hop_ok hop
       && na_opts_ok tmac (ndp_opts (skipn 20 rest))
       && icmp6_cks_ok fr
   | _ => false
